@@ -173,7 +173,20 @@ func interpCases(c *Ctx, n int, tweak func(cfg *GenCfg, i int), post func(s *Sce
 			tweak(&cfg, i)
 		}
 		g := NewGen(r, cfg)
-		prog := g.Program()
+		var prog *GProgram
+		switch cfg.Directed {
+		case "keptSpan":
+			prog = g.keptSpanProgram()
+			c.count("directed:keptSpan")
+		case "repeatDraw":
+			prog = g.repeatDrawProgram()
+			c.count("directed:repeatDraw")
+		case "saveThenUse":
+			prog = g.saveThenUseProgram()
+			c.count("directed:saveThenUse")
+		default:
+			prog = g.Program()
+		}
 		s := scenarioFromGen(g, prog, cfg.Layout, r)
 		s.Kind = storeKind(r.Weighted(25, 40, 20, 15))
 		if post != nil {
@@ -241,6 +254,12 @@ func init() {
 			cfg.Calls = false
 			cfg.WorldProb = 80
 			cfg.MaxStmts = 5
+			switch i % 8 {
+			case 3:
+				cfg.Directed = "repeatDraw"
+			case 6:
+				cfg.Directed = "saveThenUse"
+			}
 		}, nil)
 	}
 	registry["C02"] = func(c *Ctx) {
@@ -252,6 +271,12 @@ func init() {
 			cfg.Hostile = 150
 			cfg.Calls = false
 			cfg.Origins = i%4 == 0
+			switch i % 8 {
+			case 3:
+				cfg.Directed = "keptSpan"
+			case 6:
+				cfg.Directed = "repeatDraw"
+			}
 		}, nil)
 	}
 	registry["C03"] = func(c *Ctx) {
@@ -264,6 +289,16 @@ func init() {
 			cfg.Calls = false
 			cfg.Saves = i%3 == 0
 			cfg.Origins = i%6 == 0
+			cfg.KeptBias = i%2 == 0
+			cfg.SmallPool = i%4 == 1
+			switch i % 10 {
+			case 3:
+				cfg.Directed = "keptSpan"
+			case 6:
+				cfg.Directed = "saveThenUse"
+			case 9:
+				cfg.Directed = "repeatDraw"
+			}
 		}, nil)
 	}
 	registry["C04"] = func(c *Ctx) {
@@ -278,6 +313,7 @@ func init() {
 			cfg.Saves = i%4 == 0
 			cfg.Origins = false
 			cfg.MaxDepth = 4
+			cfg.SmallPool = i%3 == 0
 		}, nil)
 	}
 	registry["C05"] = func(c *Ctx) {
@@ -368,6 +404,9 @@ func init() {
 			cfg.BadAllot = 10
 			cfg.Origins = false
 			cfg.WorldProb = 60
+			if i%3 == 0 {
+				cfg.Directed = "saveThenUse"
+			}
 		}, nil)
 	}
 	registry["C12"] = func(c *Ctx) {
